@@ -22,12 +22,13 @@ IntOf(b8, t) == Scalar(t, SubSeq(b8, 9 - FixedSize(t), 8))
 Unset(f, o) ==
   IF f.req = "req" THEN (IF o.wreq THEN "write" ELSE "err")
   ELSE IF f.req = "def" THEN (IF o.wdef THEN "write" ELSE "skip")
-  ELSE IF (o.optbm \/ (o.usedflt /\ f.hasd)) /\ o.wopt THEN "write"        \* optional: only when tracked by the descriptor
+  \* optional: only when the descriptor tracks optional fields, and then also whenever it carries a parsed default
+  ELSE IF o.optbm /\ (o.wopt \/ f.hasd) THEN "write"
   ELSE "skip"
 \* the value written for an unset field: the IDL default when parsed, else the zero value
-FillOf(f, o) == IF o.usedflt /\ f.hasd THEN DecAll(f.dflt.t, f.dflt.b).v ELSE ZeroOf(f.ty)
+FillOf(f, o) == IF f.hasd THEN DecAll(f.dflt.t, f.dflt.b).v ELSE ZeroOf(f.ty)
 
-RECURSIVE J2TV(_, _, _, _), J2TMembers(_, _, _, _, _, _), J2TElems(_, _, _, _, _), J2TPairs(_, _, _, _, _, _)
+RECURSIVE J2TV(_, _, _, _), J2TMembers(_, _, _, _, _, _, _), J2TElems(_, _, _, _, _), J2TPairs(_, _, _, _, _, _)
 J2TV(d, ty, defs, o) ==
   IF d.k = "null" THEN JNull
   ELSE IF ty.t = T_BOOL THEN (IF d.k = "bool" THEN JOk(Scalar(T_BOOL, d.b)) ELSE JErr("Dismatch"))
@@ -54,7 +55,7 @@ J2TV(d, ty, defs, o) ==
   ELSE IF ty.t = T_MAP THEN
        (IF d.k # "obj" THEN JErr("Dismatch") ELSE J2TPairs(d.e, ty, defs, o, <<>>, {}))
   ELSE IF ty.t = T_STRUCT THEN
-       (IF d.k # "obj" THEN JErr("Dismatch") ELSE J2TMembers(d.e, defs[ty.n], defs, o, <<>>, {}))
+       (IF d.k # "obj" THEN JErr("Dismatch") ELSE J2TMembers(d.e, defs[ty.n], defs, o, <<>>, {}, {}))
   ELSE JErr("BadType")
 J2TElems(es, ty, defs, o, acc) ==
   IF es = <<>> THEN JOk(Cont(ty.t, ty.a[1].t, acc))
@@ -76,22 +77,25 @@ J2TPairs(ms, ty, defs, o, acc, seen) ==
             IF r.st = "ok" THEN J2TPairs(Tail(ms), ty, defs, o, Append(acc, [k |-> key.v, v |-> r.v]), seen \cup {key.v})
             ELSE IF r.st = "null" THEN J2TPairs(Tail(ms), ty, defs, o, acc, seen \cup {key.v})
             ELSE r
-\* struct members in document order; seen = ids of fields that received a (non-null) value
-J2TMembers(ms, fields, defs, o, acc, seen) ==
+\* struct members in document order; seen = ids of fields that received a (non-null) value;
+\* nulls = ids of fields given as null.  A null REQUIRED field is a missing field (C16); whether a null
+\* optional/default field is additionally filled by a write option is not fixed by the property.
+J2TMembers(ms, fields, defs, o, acc, seen, nulls) ==
   IF ms = <<>> THEN
      LET un == SelectSeq(fields, LAMBDA f : f.id \notin seen) IN
      IF \E i \in 1..Len(un) : Unset(un[i], o) = "err" THEN JErr("MissRequired")
+     ELSE IF \E i \in 1..Len(un) : un[i].id \in nulls /\ un[i].req # "req" /\ Unset(un[i], o) = "write" THEN JUnspec("NullNonRequiredWithWriteOption")
      ELSE LET fill == SelectSeq(un, LAMBDA f : Unset(f, o) = "write") IN
           [st |-> "ok", lbl |-> "", np |-> Len(acc),
            v |-> [t |-> T_STRUCT, np |-> Len(acc), f |-> acc \o [i \in 1..Len(fill) |-> [id |-> fill[i].id, v |-> FillOf(fill[i], o)]]]]
   ELSE LET m == Head(ms)
            S == {i \in 1..Len(fields) : fields[i].key = m.n}
        IN
-       IF S = {} THEN (IF o.disallow THEN JErr("UnknownField") ELSE J2TMembers(Tail(ms), fields, defs, o, acc, seen))
+       IF S = {} THEN (IF o.disallow THEN JErr("UnknownField") ELSE J2TMembers(Tail(ms), fields, defs, o, acc, seen, nulls))
        ELSE LET f == fields[CHOOSE i \in S : TRUE] IN
-            IF f.id \in seen THEN JUnspec("DuplicateMember")
+            IF f.id \in seen \/ f.id \in nulls THEN JUnspec("DuplicateMember")
             ELSE LET r == J2TV(m.v, f.ty, defs, o) IN
-                 IF r.st = "ok" THEN J2TMembers(Tail(ms), fields, defs, o, Append(acc, [id |-> f.id, v |-> r.v]), seen \cup {f.id})
-                 ELSE IF r.st = "null" THEN J2TMembers(Tail(ms), fields, defs, o, acc, seen)
+                 IF r.st = "ok" THEN J2TMembers(Tail(ms), fields, defs, o, Append(acc, [id |-> f.id, v |-> r.v]), seen \cup {f.id}, nulls)
+                 ELSE IF r.st = "null" THEN J2TMembers(Tail(ms), fields, defs, o, acc, seen, nulls \cup {f.id})
                  ELSE r
 =============================================================================
